@@ -50,7 +50,7 @@ def spec : M.Site → SiteSpec
   | .resDrop => ⟨"debt/list.rs", "<NodeReservation<'_> as Drop>::drop", 0, "fetch_sub", [.release]⟩
   | .traverse0 => ⟨"debt/list.rs", "Node::traverse", 0, "load", [.seqCst]⟩
   | .cooldown0 => ⟨"debt/list.rs", "Node::start_cooldown", 0, "swap", [.release]⟩
-  | .cc0 => ⟨"debt/list.rs", "Node::check_cooldown", 0, "load", [.acquire]⟩
+  | .cc0 => ⟨"debt/list.rs", "Node::check_cooldown", 0, "compare_exchange", [.acquire, .relaxed]⟩
   | .cc1 => ⟨"debt/list.rs", "Node::check_cooldown", 1, "load", [.relaxed]⟩
   | .cc2 => ⟨"debt/list.rs", "Node::check_cooldown", 2, "compare_exchange", [.relaxed, .relaxed]⟩
   | .reserve0 => ⟨"debt/list.rs", "Node::reserve_writer", 0, "fetch_add", [.acquire]⟩
